@@ -147,6 +147,11 @@ def parseValue : Nat → Toks → Option (Value × Toks)
     | "b" :: "0" :: r => some (.bool false, r)
     | "b" :: "1" :: r => some (.bool true, r)
     | "n" :: r => some (.nil, r)
+    -- a value of numeric or bool kind with a String()/Error() method printing the text: for every sanitizer (all go
+    -- through fmt.Sprint) it is the string; it is true in conditions like the non-empty string
+    | "g" :: h :: r => do pure (.str (← unhex h), r)
+    -- a typed nil pointer: prints <nil>, false in conditions
+    | "N" :: r => some (.nil, r)
     | "p" :: r => do
       let (v, r1) ← parseValue f r
       pure (.ptr v, r1)
